@@ -668,5 +668,430 @@ theorem d1doc_eq_D1doc (x y : ℝ) (h : x ^ 2 + y ^ 2 = 1) (mp m : ℤ) (hmp : m
     | ring1
     | (field_simp; rw [hq]; ring1)
 
+/-! ### the identity rotation: c = 1, s = 0, every ℓ -/
+
+theorem preS_zero_succ (p : ℝ) (i : ℕ) : preS (0 : ℝ) p (i + 1) = 0 := by
+  simp [preS]
+
+theorem topU_succ2 (k : ℕ) :
+    (topU (k + 2) : ℝ) = Real.sqrt (1 + (1 / 2) / ((k : ℝ) + 2)) * topU (k + 1) := by
+  rw [topU]
+  simp only [RealScalar.mul_def, RealScalar.div_def, RealScalar.sqrt_def, RealScalar.ofInt_def,
+    RealScalar.add_def, RealScalar.half_def]
+  push_cast
+  rfl
+
+theorem topU_one : (topU 1 : ℝ) = Real.sqrt 3 := by
+  simp [topU]
+
+theorem topU_pos : ∀ n : ℕ, 0 < (topU n : ℝ)
+  | 0 => by simp [topU]
+  | 1 => by rw [topU_one]; exact p3
+  | k + 2 => by
+    rw [topU_succ2]
+    have hk : (0 : ℝ) ≤ k := Nat.cast_nonneg k
+    exact mul_pos (Real.sqrt_pos.mpr (by positivity)) (topU_pos (k + 1))
+
+/-- topU n² = 2 (2n+1)! / (4ⁿ n!²), n ≥ 1 -/
+theorem topU_sq : ∀ n : ℕ, (topU (n + 1) : ℝ) ^ 2 * (4 ^ (n + 1) * ((n + 1)! : ℝ) ^ 2) = 2 * ((2 * (n + 1) + 1)! : ℝ)
+  | 0 => by
+    rw [topU_one, r3]; norm_num [Nat.factorial]
+  | k + 1 => by
+    have ih := topU_sq k
+    have hk : (0 : ℝ) ≤ k := Nat.cast_nonneg k
+    rw [topU_succ2, mul_pow, Real.sq_sqrt (by positivity)]
+    have f1 : ((k + 1 + 1)! : ℝ) = ((k : ℝ) + 2) * ((k + 1)! : ℝ) := by
+      rw [Nat.factorial_succ (k + 1)]; push_cast; ring
+    have f2 : ((2 * (k + 1 + 1) + 1)! : ℝ) = (2 * (k : ℝ) + 5) * (2 * (k : ℝ) + 4) * ((2 * (k + 1) + 1)! : ℝ) := by
+      have : 2 * (k + 1 + 1) + 1 = (2 * (k + 1) + 1) + 1 + 1 := by ring
+      rw [this, Nat.factorial_succ, Nat.factorial_succ]; push_cast; ring
+    rw [f1, f2]
+    have e : 2 * ((2 * (k : ℝ) + 5) * (2 * (k : ℝ) + 4) * ((2 * (k + 1) + 1)! : ℝ))
+        = (2 * (k : ℝ) + 5) * (2 * (k : ℝ) + 4) * (2 * ((2 * (k + 1) + 1)! : ℝ)) := by ring
+    rw [e, ← ih]
+    field_simp
+    ring
+
+/-- at (c, s) = (1, 0) the three-term recursion of step 2 collapses to a two-term one -/
+theorem rawD_id_succ (n j : ℕ) :
+    rawD (1 : ℝ) 0 n (j + 1) = gC (n : ℤ) ((n : ℤ) - ((j + 1 : ℕ) : ℤ)) * rawD (1 : ℝ) 0 n j := by
+  cases j with
+  | zero => rw [rawD_1, rawD_0]; simp
+  | succ i =>
+    rw [rawD_succ2]; simp
+    left; congr 1
+
+theorem gC_val (n j : ℕ) :
+    (gC (n : ℤ) ((n : ℤ) - ((j + 1 : ℕ) : ℤ)) : ℝ)
+      = 2 * ((n : ℝ) - j) / Real.sqrt (((j : ℝ) + 1) * (2 * (n : ℝ) - j)) := by
+  unfold gC
+  simp only [RealScalar.div_def, RealScalar.sqrt_def, RealScalar.ofInt_def]
+  push_cast
+  congr 2 <;> ring
+
+theorem rawD_id_pos (n : ℕ) : ∀ j, j ≤ n → 0 < rawD (1 : ℝ) 0 n j
+  | 0, _ => by rw [rawD_0]; exact topU_pos n
+  | j + 1, h => by
+    rw [rawD_id_succ, gC_val n j]
+    have hjn : (j : ℝ) + 1 ≤ n := by exact_mod_cast h
+    have hj0 : (0 : ℝ) ≤ j := Nat.cast_nonneg j
+    have : 0 < ((j : ℝ) + 1) * (2 * (n : ℝ) - j) := by
+      apply mul_pos <;> linarith
+    exact mul_pos (div_pos (by linarith) (Real.sqrt_pos.mpr this)) (rawD_id_pos n j (by omega))
+
+theorem rawD_id_sq (n : ℕ) : ∀ j, j ≤ n →
+    rawD (1 : ℝ) 0 n j ^ 2 * ((j ! : ℝ) * ((2 * n).descFactorial j : ℝ))
+      = topU n ^ 2 * 4 ^ j * ((n.descFactorial j : ℝ)) ^ 2
+  | 0, _ => by rw [rawD_0]; simp
+  | j + 1, h => by
+    have ih := rawD_id_sq n j (by omega)
+    rw [rawD_id_succ, gC_val n j]
+    have hjn : (j : ℝ) + 1 ≤ n := by exact_mod_cast h
+    have hj0 : (0 : ℝ) ≤ j := Nat.cast_nonneg j
+    have hpos : 0 < ((j : ℝ) + 1) * (2 * (n : ℝ) - j) := by
+      apply mul_pos <;> linarith
+    have e1 : ((j + 1)! : ℝ) = ((j : ℝ) + 1) * (j ! : ℝ) := by
+      rw [Nat.factorial_succ]; push_cast; ring
+    have e2 : ((2 * n).descFactorial (j + 1) : ℝ) = (2 * (n : ℝ) - j) * ((2 * n).descFactorial j : ℝ) := by
+      rw [Nat.descFactorial_succ, Nat.cast_mul, Nat.cast_sub (by omega)]; push_cast; ring
+    have e3 : (n.descFactorial (j + 1) : ℝ) = ((n : ℝ) - j) * (n.descFactorial j : ℝ) := by
+      rw [Nat.descFactorial_succ, Nat.cast_mul, Nat.cast_sub (by omega)]
+    rw [e1, e2, e3, mul_pow, div_pow, Real.sq_sqrt hpos.le]
+    have hn1 : (j : ℝ) + 1 ≠ 0 := by linarith
+    have hn2 : 2 * (n : ℝ) - j ≠ 0 := by linarith
+    field_simp
+    linear_combination (4 * ((n : ℝ) - j) ^ 2) * ih
+
+/-- the top-of-recursion value: rawD(n, n) = √(4n+2) at the identity -/
+theorem rawD_id_top (n : ℕ) (hn : 1 ≤ n) : rawD (1 : ℝ) 0 n n = Real.sqrt (4 * (n : ℝ) + 2) := by
+  have hsq := rawD_id_sq n n le_rfl
+  have hpos := rawD_id_pos n n le_rfl
+  obtain ⟨k, rfl⟩ : ∃ k, n = k + 1 := ⟨n - 1, by omega⟩
+  have ht := topU_sq k
+  rw [Nat.descFactorial_self] at hsq
+  have hd : ((k + 1)! : ℝ) * ((2 * (k + 1)).descFactorial (k + 1) : ℝ) = ((2 * (k + 1))! : ℝ) := by
+    have := Nat.factorial_mul_descFactorial (n := 2 * (k + 1)) (k := k + 1) (by omega)
+    rw [show 2 * (k + 1) - (k + 1) = k + 1 by omega] at this
+    exact_mod_cast this
+  have hf : ((2 * (k + 1) + 1)! : ℝ) = (2 * ((k : ℝ) + 1) + 1) * ((2 * (k + 1))! : ℝ) := by
+    rw [Nat.factorial_succ]; push_cast; ring
+  have hfpos : (0 : ℝ) < ((2 * (k + 1))! : ℝ) := by exact_mod_cast Nat.factorial_pos _
+  rw [hd] at hsq
+  have h2 : rawD (1 : ℝ) 0 (k + 1) (k + 1) ^ 2 = 4 * ((k + 1 : ℕ) : ℝ) + 2 := by
+    have : rawD (1 : ℝ) 0 (k + 1) (k + 1) ^ 2 * ((2 * (k + 1))! : ℝ)
+        = (4 * ((k + 1 : ℕ) : ℝ) + 2) * ((2 * (k + 1))! : ℝ) := by
+      rw [hsq]
+      have e : topU (k + 1) ^ 2 * 4 ^ (k + 1) * ((k + 1)! : ℝ) ^ 2
+          = (topU (k + 1) : ℝ) ^ 2 * (4 ^ (k + 1) * ((k + 1)! : ℝ) ^ 2) := by ring
+      rw [e, ht, hf]; push_cast; ring
+    exact mul_right_cancel₀ hfpos.ne' this
+  rw [← h2, Real.sqrt_sq hpos.le]
+
+theorem bot0_id (k : ℕ) : bot0 (1 : ℝ) 0 (k + 2) = 1 := by
+  have ht := rawD_id_top (k + 2) (by omega)
+  rw [rawD_id_succ (k + 2) (k + 1)] at ht
+  unfold bot0 cnorm
+  simp only [RealScalar.mul_def, RealScalar.div_def, RealScalar.sqrt_def, RealScalar.ofInt_def,
+    RealScalar.sub_def, RealScalar.one_def]
+  have e : k + 2 - 1 = k + 1 := by omega
+  rw [e]
+  have g0 : ((k + 2 : ℕ) : ℤ) - ((k + 1 + 1 : ℕ) : ℤ) = 0 := by push_cast; ring
+  rw [g0] at ht
+  have hk : (0 : ℝ) ≤ k := Nat.cast_nonneg k
+  have hp : 0 < Real.sqrt (4 * ((k + 2 : ℕ) : ℝ) + 2) := Real.sqrt_pos.mpr (by positivity)
+  simp only [mul_one, mul_zero, zero_mul, sub_zero]
+  rw [ht]
+  push_cast
+  push_cast at hp
+  field_simp
+
+/-- the m' = 0 column of H at the identity: δ_{m,0} -/
+theorem col0_id : ∀ n m : ℕ, m ≤ n → col0 (1 : ℝ) 0 n m = if m = 0 then 1 else 0
+  | 0, m, h => by
+    have : m = 0 := by omega
+    subst this; simp [col0]
+  | 1, 0, _ => by
+    have := valW_1_0_0 1 0
+    simpa [valW, valPos] using this
+  | 1, m + 1, _ => by
+    simp [col0, topN, preS]
+  | k + 2, m, h => by
+    rw [col0]
+    by_cases h0 : m = 0
+    · rw [if_pos h0, if_pos h0]; exact bot0_id k
+    · rw [if_neg h0, if_neg h0]
+      obtain ⟨i, rfl⟩ : ∃ i, m = i + 1 := ⟨m - 1, by omega⟩
+      split
+      · rw [preS_zero_succ]; simp
+      · simp [topN, preS]
+
+theorem dC_ne (n j : ℕ) (h : j < n) : (dC (n : ℤ) (j : ℤ) : ℝ) ≠ 0 := by
+  unfold dC
+  have hj : ¬ ((j : ℤ) < 0) := by omega
+  simp only [if_neg hj, RealScalar.mul_def, RealScalar.sqrt_def, RealScalar.ofInt_def, RealScalar.half_def]
+  have hjn : (j : ℝ) + 1 ≤ n := by exact_mod_cast h
+  have hj0 : (0 : ℝ) ≤ j := Nat.cast_nonneg j
+  have : (0 : ℝ) < (((n : ℤ) - (j : ℤ)) * ((n : ℤ) + (j : ℤ) + 1) : ℤ) := by
+    push_cast; apply mul_pos <;> linarith
+  exact (mul_pos (by norm_num) (Real.sqrt_pos.mpr this)).ne'
+
+theorem bC_ne (n : ℕ) (h : 1 ≤ n) : (bC ((n : ℤ) + 1) 0 : ℝ) ≠ 0 := by
+  unfold bC
+  simp only [lt_irrefl, if_false, RealScalar.div_def, RealScalar.sqrt_def, RealScalar.ofInt_def]
+  have hn : (1 : ℝ) ≤ n := by exact_mod_cast h
+  apply (Real.sqrt_pos.mpr _).ne'
+  push_cast
+  apply div_pos <;> apply mul_pos <;> linarith
+
+theorem f3_id (n i : ℕ) (x2 x0 x1 : ℝ) :
+    f3 (1 : ℝ) 0 n i x2 x0 x1 = -(bC ((n : ℤ) + 1) (i : ℤ) / bC ((n : ℤ) + 1) 0) * x0 := by
+  unfold f3
+  simp only [RealScalar.mul_def, RealScalar.div_def, RealScalar.sub_def, RealScalar.add_def,
+    RealScalar.one_def, RealScalar.half_def]
+  ring
+
+theorem f4mid_id (n mp i : ℕ) (y : ℝ) :
+    f4mid n mp i (0 : ℝ) y 0 = -(dC (n : ℤ) ((mp : ℤ) - 1 + (i : ℤ)) / dC (n : ℤ) (mp : ℤ)) * y := by
+  unfold f4mid
+  simp only [RealScalar.mul_def, RealScalar.div_def, RealScalar.sub_def, RealScalar.add_def, RealScalar.one_def]
+  ring
+
+theorem f4top_id (n mp : ℕ) (y : ℝ) :
+    f4top n mp (0 : ℝ) y = -(dC (n : ℤ) ((n : ℤ) - 1) / dC (n : ℤ) (mp : ℤ)) * y := by
+  unfold f4top
+  simp only [RealScalar.mul_def, RealScalar.div_def, RealScalar.sub_def, RealScalar.one_def]
+  ring
+
+/-- the columns m' = k ≥ 0 of H at the identity: (−1)^k δ_{m,k} -/
+theorem valPos_id : ∀ k n m : ℕ, k ≤ m → m ≤ n →
+    valPos (1 : ℝ) 0 k n m = if m = k then (-1) ^ k else 0
+  | 0, n, m, _, h2 => by
+    rw [valPos, col0_id n m h2]; simp
+  | 1, n, 0, h1, _ => by omega
+  | 1, n, i + 1, _, h2 => by
+    rw [valPos, f3_id, col0_id (n + 1) i (by omega)]
+    by_cases hi : i = 0
+    · subst hi
+      have := bC_ne n (by omega)
+      simp only [Nat.cast_zero, if_true]
+      field_simp
+    · rw [if_neg hi, if_neg (by omega)]; simp
+  | k + 2, n, m, h1, h2 => by
+    rw [valPos]
+    by_cases hmn : m < n
+    · rw [if_pos hmn, valPos_id k n m (by omega) h2, if_neg (by omega),
+        valPos_id (k + 1) n (m + 1) (by omega) (by omega), if_neg (by omega), f4mid_id,
+        valPos_id (k + 1) n (m - 1) (by omega) (by omega)]
+      by_cases hm : m = k + 2
+      · subst hm
+        have hd := dC_ne n (k + 1) (by omega)
+        have e : (((k + 1 : ℕ) : ℤ) - 1 + ((k + 2 - (k + 1) : ℕ) : ℤ)) = ((k + 1 : ℕ) : ℤ) := by
+          rw [show k + 2 - (k + 1) = 1 by omega]; push_cast; ring
+        rw [e, if_pos (by omega), if_pos rfl, div_self hd]
+        ring
+      · rw [if_neg (by omega), if_neg hm]; simp
+    · have hm : m = n := by omega
+      subst hm
+      rw [if_neg hmn, valPos_id k m m (by omega) le_rfl, if_neg (by omega), f4top_id,
+        valPos_id (k + 1) m (m - 1) (by omega) (by omega)]
+      by_cases hm : m = k + 2
+      · subst hm
+        have hd := dC_ne (k + 2) (k + 1) (by omega)
+        have e : (((k + 2 : ℕ) : ℤ) - 1) = ((k + 1 : ℕ) : ℤ) := by push_cast; ring
+        rw [e, if_pos (by omega), if_pos rfl, div_self hd]
+        ring
+      · rw [if_neg (by omega), if_neg hm]; simp
+
+theorem f5mid_zero (n q i : ℕ) : f5mid n q i (0 : ℝ) 0 0 = 0 := by
+  unfold f5mid
+  simp only [RealScalar.mul_def, RealScalar.div_def, RealScalar.sub_def, RealScalar.add_def, RealScalar.one_def]
+  ring
+
+theorem f5top_zero (n q : ℕ) : f5top n q (0 : ℝ) 0 = 0 := by
+  unfold f5top
+  simp only [RealScalar.mul_def, RealScalar.div_def, RealScalar.add_def, RealScalar.one_def]
+  ring
+
+theorem f5mid_cancel (n : ℕ) : f5mid n 0 1 (-1 : ℝ) 1 0 = 0 := by
+  unfold f5mid
+  simp only [RealScalar.mul_def, RealScalar.div_def, RealScalar.sub_def, RealScalar.add_def, RealScalar.one_def]
+  norm_num
+
+theorem f5top_cancel : f5top 1 0 (-1 : ℝ) 1 = 0 := by
+  unfold f5top
+  simp only [RealScalar.mul_def, RealScalar.div_def, RealScalar.add_def, RealScalar.one_def]
+  norm_num
+
+/-- the columns m' = −q ≤ 0 of H at the identity: δ_{m,0} (so 0 for q ≥ 1) -/
+theorem valNeg_id : ∀ q n m : ℕ, q ≤ m → m ≤ n →
+    valNeg (1 : ℝ) 0 q n m = if m = 0 then 1 else 0
+  | 0, n, m, _, h2 => by
+    rw [valNeg, col0_id n m h2]
+  | 1, n, m, h1, h2 => by
+    rw [valNeg, if_neg (show ¬ m = 0 by omega)]
+    have hx : valPos (1 : ℝ) 0 1 n m = if m = 1 then -1 else 0 := by
+      rw [valPos_id 1 n m h1 h2]; simp
+    by_cases hmn : m < n
+    · rw [if_pos hmn, hx, col0_id n (m - 1) (by omega), col0_id n (m + 1) (by omega),
+        if_neg (show ¬ m + 1 = 0 by omega)]
+      by_cases hm : m = 1
+      · subst hm; simp only [if_true, Nat.sub_self]; exact f5mid_cancel n
+      · rw [if_neg hm, if_neg (show ¬ m - 1 = 0 by omega)]; exact f5mid_zero n 0 m
+    · have hm : m = n := by omega
+      subst hm
+      rw [if_neg hmn, hx, col0_id m (m - 1) (by omega)]
+      by_cases hm : m = 1
+      · subst hm; simp only [if_true, Nat.sub_self]; exact f5top_cancel
+      · rw [if_neg hm, if_neg (show ¬ m - 1 = 0 by omega)]; exact f5top_zero m 0
+  | q + 2, n, m, h1, h2 => by
+    rw [valNeg, if_neg (show ¬ m = 0 by omega)]
+    by_cases hmn : m < n
+    · rw [if_pos hmn, valNeg_id q n m (by omega) h2, valNeg_id (q + 1) n (m - 1) (by omega) (by omega),
+        valNeg_id (q + 1) n (m + 1) (by omega) (by omega), if_neg (show ¬ m = 0 by omega),
+        if_neg (show ¬ m - 1 = 0 by omega), if_neg (show ¬ m + 1 = 0 by omega)]
+      exact f5mid_zero _ _ _
+    · have hm : m = n := by omega
+      subst hm
+      rw [if_neg hmn, valNeg_id q m m (by omega) le_rfl, valNeg_id (q + 1) m (m - 1) (by omega) (by omega),
+        if_neg (show ¬ m = 0 by omega), if_neg (show ¬ m - 1 = 0 by omega)]
+      exact f5top_zero _ _
+
+/-- the whole H wedge at the identity rotation (β = 0): H(n, m', m) = (−1)^m δ_{m',m} -/
+theorem valW_id (n : ℕ) (mp : ℤ) (m : ℕ) (h1 : mp.natAbs ≤ m) (h2 : m ≤ n) :
+    valW (1 : ℝ) 0 n mp m = if mp = (m : ℤ) then (-1) ^ m else 0 := by
+  unfold valW
+  by_cases hp : 0 ≤ mp
+  · rw [if_pos hp, valPos_id mp.toNat n m (by omega) h2]
+    by_cases hm : m = mp.toNat
+    · rw [if_pos hm, if_pos (by omega), hm]
+    · rw [if_neg hm, if_neg (by omega)]
+  · rw [if_neg hp, valNeg_id mp.natAbs n m h1 h2, if_neg (by omega), if_neg (by omega)]
+
+theorem wedgeRep_diag (m : ℤ) : wedgeRep m m = ((m.natAbs : ℤ), (m.natAbs : ℤ)) := by
+  unfold wedgeRep
+  split <;> split <;> (simp only [Prod.mk.injEq]; omega)
+
+theorem wedgeRep_offdiag (mp m : ℤ) (h : mp ≠ m) :
+    (wedgeRep mp m).1 ≠ (((wedgeRep mp m).2.toNat : ℕ) : ℤ) := by
+  unfold wedgeRep
+  split <;> split <;> (simp only []; omega)
+
+theorem pw_base_one (k : ℤ) : pw 1 k = 1 := by
+  unfold pw; simp
+
+theorem identity_phases :
+    cosB 1 0 0 0 = 1 ∧ sinB 1 0 0 0 = 0 ∧ zpR 1 0 = ⟨1, 0⟩ ∧ zmR 0 0 = ⟨1, 0⟩ := by
+  refine ⟨by unfold cosB; norm_num, by unfold sinB; norm_num, ?_, ?_⟩
+  · unfold zpR; norm_num
+  · unfold zmR; norm_num
+
+section
+variable {μ : Type} [Mem μ ℝ] [LawfulMem μ ℝ]
+
+/-- `Wigner.D` of the identity rotor (1, 0, 0, 0) is the identity matrix, for EVERY ℓ ≤ ell_max -/
+theorem objD_identity (L : ℕ) (st : μ) (imsqrt : Cx ℝ → ℝ)
+    (hs : ∀ w : Cx ℝ, w.re ^ 2 + w.im ^ 2 = 1 → 2 * (imsqrt w) ^ 2 = 1 - w.re)
+    (ell : ℕ) (hl : ell ≤ L) (mp m : ℤ) (hmp : mp.natAbs ≤ ell) (hm : m.natAbs ≤ ell) :
+    toC (objD L st 1 0 0 0 imsqrt ell mp m) = if mp = m then 1 else 0 := by
+  rw [objD_eq L st 1 0 0 0 (by norm_num) imsqrt hs ell hl mp m hmp hm]
+  obtain ⟨hc, hsn, hp, hmm⟩ := identity_phases
+  rw [hc, hsn, hp, hmm]
+  have one : toC (Cx.mul (⟨1, 0⟩ : Cx ℝ) ⟨1, 0⟩) = 1 := by
+    apply Complex.ext <;> simp [Cx.mul]
+  have one' : toC (Cx.mul (⟨1, 0⟩ : Cx ℝ) (Cx.conj ⟨1, 0⟩)) = 1 := by
+    apply Complex.ext <;> simp [Cx.mul, Cx.conj]
+  rw [one, one', pw_base_one, pw_base_one, mul_one, mul_one]
+  have h1 := Lemmas.Object.wedgeRep_fst_le mp m
+  have h2 := Lemmas.Object.wedgeRep_fst_le_snd mp m
+  have h3 := Lemmas.Object.wedgeRep_snd_le mp m ell hmp hm
+  rw [valW_id ell _ _ h2 h3]
+  by_cases h : mp = m
+  · subst h
+    rw [if_pos rfl, wedgeRep_diag]
+    simp only [Int.toNat_natCast, if_true]
+    rw [eps_mul_eps_neg]
+    push_cast
+    rw [← mul_pow]; norm_num
+  · rw [if_neg h, if_neg (wedgeRep_offdiag mp m h)]
+    simp
+end
+
+/-! ### rotations about z, every ℓ; degenerate branches; a concrete `imsqrt` -/
+
+theorem zpR_degenerate (R0 R3 : ℝ) (h : R0 * R0 + R3 * R3 = 0) : zpR R0 R3 = ⟨1, 0⟩ := by
+  unfold zpR; rw [h]; simp
+
+theorem zmR_degenerate (R1 R2 : ℝ) (h : R1 * R1 + R2 * R2 = 0) : zmR R1 R2 = ⟨1, 0⟩ := by
+  unfold zmR; rw [h]; simp
+
+/-- a function with the property required of `np.sqrt(z).imag` on the unit circle -/
+def imsqrtR (w : Cx ℝ) : ℝ := Real.sqrt ((1 - w.re) / 2)
+
+theorem imsqrtR_spec (w : Cx ℝ) (hw : w.re ^ 2 + w.im ^ 2 = 1) : 2 * (imsqrtR w) ^ 2 = 1 - w.re := by
+  have h1 : 0 ≤ (1 - w.re) / 2 := by nlinarith [sq_nonneg w.im, sq_nonneg (w.re - 1)]
+  unfold imsqrtR
+  rw [Real.sq_sqrt h1]; ring
+
+theorem pw_mul_self_unit (z : ℂ) (k : ℤ) : pw 1 k * pw z k = pw z k := by
+  rw [pw_base_one, one_mul]
+
+section
+variable {μ : Type} [Mem μ ℝ] [LawfulMem μ ℝ]
+
+/-- `Wigner.D` of a rotation about z, rotor (R0, 0, 0, R3): diagonal with entries R_a^{2m}
+    (`pw z m` is z^m for m ≥ 0 and conj(z)^{−m} for m < 0), for EVERY ℓ ≤ ell_max -/
+theorem objD_zrot (L : ℕ) (st : μ) (R0 R3 : ℝ) (hR : R0 ^ 2 + R3 ^ 2 = 1) (imsqrt : Cx ℝ → ℝ)
+    (hs : ∀ w : Cx ℝ, w.re ^ 2 + w.im ^ 2 = 1 → 2 * (imsqrt w) ^ 2 = 1 - w.re)
+    (ell : ℕ) (hl : ell ≤ L) (mp m : ℤ) (hmp : mp.natAbs ≤ ell) (hm : m.natAbs ≤ ell) :
+    toC (objD L st R0 0 0 R3 imsqrt ell mp m) =
+      if mp = m then pw (Ra R0 R3) m * pw (Ra R0 R3) m else 0 := by
+  rw [objD_eq L st R0 0 0 R3 (by linarith) imsqrt hs ell hl mp m hmp hm]
+  have ha : R0 * R0 + R3 * R3 = 1 := by linarith
+  have hc : cosB R0 0 0 R3 = 1 := by unfold cosB; linarith
+  have hsn : sinB R0 0 0 R3 = 0 := by unfold sinB; norm_num
+  have hzm : zmR 0 0 = ⟨1, 0⟩ := zmR_degenerate 0 0 (by norm_num)
+  have hzp : toC (zpR R0 R3) = Ra R0 R3 := by
+    have := (zpR_spec R0 R3).1
+    rw [ha, Real.sqrt_one] at this
+    simpa [Ra] using this
+  have one : ∀ z : Cx ℝ, toC (Cx.mul z (⟨1, 0⟩ : Cx ℝ)) = toC z := by
+    intro z; apply Complex.ext <;> simp [Cx.mul]
+  have one' : ∀ z : Cx ℝ, toC (Cx.mul z (Cx.conj (⟨1, 0⟩ : Cx ℝ))) = toC z := by
+    intro z; apply Complex.ext <;> simp [Cx.mul, Cx.conj]
+  rw [hc, hsn, hzm, one, one', hzp]
+  have h1 := Lemmas.Object.wedgeRep_fst_le mp m
+  have h2 := Lemmas.Object.wedgeRep_fst_le_snd mp m
+  have h3 := Lemmas.Object.wedgeRep_snd_le mp m ell hmp hm
+  rw [valW_id ell _ _ h2 h3]
+  by_cases h : mp = m
+  · subst h
+    rw [if_pos rfl, wedgeRep_diag]
+    simp only [Int.toNat_natCast, if_true]
+    rw [eps_mul_eps_neg]
+    push_cast
+    rw [← mul_pow]; norm_num
+  · rw [if_neg h, if_neg (wedgeRep_offdiag mp m h)]
+    simp
+
+/-- `Wigner.d` at β = 0 is the identity matrix, for EVERY ℓ ≤ ell_max -/
+theorem objd_identity (L : ℕ) (st : μ) (ell : ℕ) (hl : ell ≤ L) (mp m : ℤ)
+    (hmp : mp.natAbs ≤ ell) (hm : m.natAbs ≤ ell) :
+    objd L st (1 : ℝ) 0 ell mp m = if mp = m then 1 else 0 := by
+  rw [objd_eq L st 1 0 ell hl mp m hmp hm]
+  have h1 := Lemmas.Object.wedgeRep_fst_le mp m
+  have h2 := Lemmas.Object.wedgeRep_fst_le_snd mp m
+  have h3 := Lemmas.Object.wedgeRep_snd_le mp m ell hmp hm
+  rw [valW_id ell _ _ h2 h3]
+  by_cases h : mp = m
+  · subst h
+    rw [if_pos rfl, wedgeRep_diag]
+    simp only [Int.toNat_natCast, if_true]
+    rw [eps_mul_eps_neg]
+    push_cast
+    rw [← mul_pow]; norm_num
+  · rw [if_neg h, if_neg (wedgeRep_offdiag mp m h)]
+    simp
+end
+
 end DDef
 end
